@@ -771,8 +771,34 @@ def rule_PL6(ctx, tier):
             rr.fail("idle-wake:reload", "an idle retrier's pending appointments are reloaded from the database without the retrier being set to Stopped on that path (or the reload is not of the Pending ones): it stays Idle with data in memory, is never started, and the timed wake-up reloads again and again", where=m.line_of(bb))
     if len(loads) != 2:
         rr.fail("idle-wake:sites=%d" % len(loads), "expected 2 idle wake-up sites (manual, timed) reloading from disk", where=m.span)
-    # what the manager receives for a known tower whose retrier is not idle is added to that tower's pending set before the next turn
     from .rulekit import reaches_unless
+    # Retrier::start: a running retrier means the tower reads TemporaryUnreachable (or keeps its SubscriptionError): the hook feeds a
+    # retrier only for a tower that is not Unreachable, so a tower left Unreachable while its retrier runs gets nothing new
+    stb = P.bodies.get(START)
+    if stb is None:
+        rr.anchor_missing(START)
+    else:
+        tsites = [bb for bb in sites(stb, WT + "set_tower_status") if "TowerStatus::TemporaryUnreachable" in og.show(arg_origin(ctx, stb, bb, 2))]
+        run_sites = [bb for bb in sites(stb, RT + "set_status") if "RetrierStatus::Running" in og.show(arg_origin(ctx, stb, bb, 1))]
+        sub_err = lambda fs: any(x[0] == "truth" and x[2] is True and has_call(x[1], "TowerStatus::is_subscription_error") for x in fs)
+        if tsites and run_sites and reaches_unless(ctx, stb, [0], tsites, run_sites, sub_err) and all(truth_fact(ctx, stb, bb, "TowerStatus::is_subscription_error") is False for bb in tsites):
+            rr.ok("start: tower flagged TemporaryUnreachable before the retrier runs, unless (and only unless) it is in SubscriptionError")
+        else:
+            rr.fail("start:tower-status", "Retrier::start does not flag the tower TemporaryUnreachable exactly when it is not in SubscriptionError before setting the retrier Running: a woken retrier runs for a tower that still reads Unreachable (new revocations are then kept from it), or a subscription error is overwritten and the retry never re-registers", where=stb.span)
+    # add_pending_appointments keeps what it is given: a new Retrier is built from the locators, or each of them is inserted into
+    # the existing retrier's set
+    ap = P.bodies.get(RM + "add_pending_appointments")
+    if ap is None:
+        rr.anchor_missing(RM + "add_pending_appointments")
+    else:
+        newr = [bb for bb in sites(ap, RT + "new") if og.strip(arg_origin(ctx, ap, bb, 2)) == ("param", ap.id, 3)]
+        ins = [bb for bb, t_ in ap.calls() if "HashSet" in (call_target(t_) or "") and (call_target(t_) or "").split("::")[-1] in ("insert", "extend") and "f:pending_appointments" in og.show(arg_origin(ctx, ap, bb, 0))]
+        ins_ok = [bb for bb in ins if ("param", ap.id, 3) in list(og.walk(arg_origin(ctx, ap, bb, 1)))]
+        if newr and ins_ok:
+            rr.ok("add_pending_appointments: new retrier built from the locators / locators inserted into the existing one")
+        else:
+            rr.fail("manager:locators-not-kept", "RetryManager::add_pending_appointments does not put the locators it receives into %s: they are on disk as pending but the retrier that should send them never hears of them" % ("a new retrier" if not newr else "the existing retrier's pending set"), where=ap.span)
+    # what the manager receives for a known tower whose retrier is not idle is added to that tower's pending set before the next turn
     adds = sites(m, RM + "add_pending_appointments")
     turn = {y for y, t_ in m.calls() if (call_target(t_) or "").split("::")[-1] in ("try_recv", "sleep")}
     ok_edges = switch_succ_with(ctx, m, "variant", "Ok", "try_recv")
@@ -921,6 +947,20 @@ def rule_PL7(ctx, tier):
     }
     from .rulekit import generated_keys_persisted
     generated_keys_persisted(ctx, rr, ("watchtower_plugin::",), PDBM + "store_client_key", "client")
+    # `abandontower` answers "successfully abandoned" only after WTClient::remove_tower ran
+    ab = None
+    for bid in P.family("watchtower_client::abandon_tower") if "watchtower_client::abandon_tower" in P.bodies else []:
+        if sites(P.bodies[bid], WT + "remove_tower") or any(st_["k"] == "assign" and st_["d"] == [0] for bb_ in P.bodies[bid].rpo() for st_ in P.bodies[bid].blocks[bb_]["s"]):
+            ab = P.bodies[bid]
+    if ab is None:
+        rr.anchor_missing("watchtower_client::abandon_tower")
+    else:
+        oks_ = [bb for bb in ab.rpo() for st_ in ab.blocks[bb]["s"] if st_["k"] == "assign" and st_["d"] == [0] and st_["rv"]["k"] == "agg" and st_["rv"].get("variant") == "Ok"]
+        bef_ = ctx.pf.called_before(ab)
+        if oks_ and all((WT + "remove_tower") in bef_.get(x, set()) for x in oks_):
+            rr.ok("abandontower: Ok only after remove_tower")
+        else:
+            rr.fail("abandon:ok-without-removal", "the abandontower command can answer Ok on a path that never called WTClient::remove_tower: the tower stays in memory and on disk and keeps receiving appointments", where=ab.span)
     # set_tower_status(id, s) leaves a known tower with status s on every path: the retrier's start, the give-up arms and the
     # hook all rely on the transition they asked for having happened (Running retrier <=> TemporaryUnreachable / SubscriptionError)
     from .rulekit import enumerate_paths, rel_of_term
